@@ -524,7 +524,40 @@ func (l *Linter) resolveFileInclusion(
 	} else {
 		statements = l.loadSnippetVCL(module.Name, module.Data)
 	}
-	return l.resolveIncludeStatements(statements, ctx, isRoot)
+	statements = l.resolveIncludeStatements(statements, ctx, isRoot)
+	// The blocks of the module are linted after this function returns, when the module is no longer known
+	// as being included. Resolve the include statements inside of them now, so that a module which includes
+	// itself from a nested block is found as well.
+	l.resolveNestedIncludeStatements(statements, ctx)
+	return statements
+}
+
+// Resolve include statements which are placed in the blocks of the statements (subroutine, if / else)
+func (l *Linter) resolveNestedIncludeStatements(statements []ast.Statement, ctx *context.Context) {
+	resolve := func(block *ast.BlockStatement) {
+		if block == nil {
+			return
+		}
+		block.Statements = l.resolveIncludeStatements(block.Statements, ctx, false)
+		l.resolveNestedIncludeStatements(block.Statements, ctx)
+	}
+
+	for _, stmt := range statements {
+		switch t := stmt.(type) {
+		case *ast.SubroutineDeclaration:
+			resolve(t.Block)
+		case *ast.BlockStatement:
+			resolve(t)
+		case *ast.IfStatement:
+			resolve(t.Consequence)
+			for _, a := range t.Another {
+				resolve(a.Consequence)
+			}
+			if t.Alternative != nil {
+				resolve(t.Alternative.Consequence)
+			}
+		}
+	}
 }
 
 //nolint:gocognit,funlen
